@@ -53,6 +53,18 @@ def plan_run(run_seed, prop):
         if prop != "C09" or progast.has_kind(prog, "sub"):
             break
     tp = st.get("pipeline")
+    # an integer-valued let that is only used as a numeric gate argument may be overridden
+    # by a non-integral value (the resolver rejects the dictionary if the let is also an
+    # index, a count or a size)
+    for name, v in prog["lets"]:
+        if isinstance(v, int) and tp.chance(0.25):
+            trial = dict(ov or {})
+            trial[name] = tp.choice(gen.FLOAT_VALUES)
+            try:
+                progast.resolve(prog, trial, executable=True)
+                ov = trial
+            except progast.Invalid:
+                pass
     if tp.chance(0.3):
         # a pulse import in the header; never loaded (autoload_pulses=False), pure header data
         prog["pulses"] = tp.choice(["qscout.v1.std", ".local_pulses", "lab.gates"])
@@ -244,8 +256,19 @@ def check_result(viol, tag, res, M, R, sampler, mode):
     check_views(viol, tag, res, n, simulated=True)
 
 
-def check_views(viol, tag, res, n, simulated):
+def check_views(viol, tag, res, n, simulated, single_execution=True):
     """C15: normalised, mutually consistent little-endian views."""
+    if single_execution and res.readouts is not None:
+        # the recorded readouts of a subcircuit are the ones attributed to it
+        for i, sc in enumerate(res.subcircuits):
+            want = np.zeros(2**n)
+            for r in res.readouts:
+                if r.subcircuit is sc:
+                    want[r.as_int] += 1
+            rf = np.asarray(sc.relative_frequency_by_int)
+            if rf.shape != want.shape or np.abs(rf - want).max() > 0:
+                viol.add("C15", "relative_frequency_counts_attributed", "mismatch", tag, "subcircuit %d" % i)
+                break
     keys = [format(k, "b").zfill(n)[::-1] for k in range(2**n)]
     for i, sc in enumerate(res.subcircuits):
         views = [("relative_frequency", sc.relative_frequency_by_int, sc.relative_frequency_by_str)]
@@ -581,7 +604,7 @@ def execute(plan):
             viol.add("C15", "job_executed_twice", oj["kind"], oj.get("where", ""), str(oj.get("exc")))
         else:
             r1, r2 = oj["value"]
-            check_views(viol, "job-2nd-execute", r2, n, simulated=True)
+            check_views(viol, "job-2nd-execute", r2, n, simulated=True, single_execution=False)
             log.append(("job2", hexdigest([[int(r.as_int) for r in sc.readouts] for sc in r2.subcircuits])))
 
     # --- written branch order must not matter (C03)
@@ -692,12 +715,15 @@ def check_c09_structure(viol, plan, texts, G, clock, budget, probe):
 
     tA = [t for t in texts if t[0] == "A"][0][1]
     tB = [t for t in texts if t[0] == "B"][0][1]
+    before = {}
     kw = dict(inject_pulses=G, autoload_pulses=False)  # a usepulses line stays pure header data here
     caller = plan["bounding"] == "caller"
 
     def job():
         cA = parse_jaqal_string(tA, **kw)
         cB = parse_jaqal_string(tB, **kw)
+        before["hdr"] = extract.header_view(cA, macros=False)  # before: dicts may be shared
+        before["gates"] = [(k, id(v)) for k, v in cA.native_gates.items()]
         if caller:
             pd, md = GateDefinition("prepare_all"), GateDefinition("measure_all")
             eA = expand_subcircuits(cA, prepare_def=pd, measure_def=md)
@@ -721,7 +747,9 @@ def check_c09_structure(viol, plan, texts, G, clock, budget, probe):
     left = [b for b in extract.iter_blocks(eA) if getattr(b, "subcircuit", False)]
     if left:
         viol.add("C09", "no_subcircuit_left", "mismatch", "expand_subcircuits", "%d left" % len(left))
-    hdr_a, hdr_e = extract.header_view(cA, macros=False), extract.header_view(eA, macros=False)
+    hdr_a, hdr_e = before["hdr"], extract.header_view(eA, macros=False)
+    if [(k, id(v)) for k, v in cA.native_gates.items()] != before["gates"]:
+        viol.add("C09", "header_unchanged", "mismatch", "expand_subcircuits", "the native gate table of the input changed")
     if hdr_a != hdr_e:
         viol.add("C09", "header_unchanged", "mismatch", "expand_subcircuits", "%r vs %r" % (hdr_a, hdr_e))
     if list(cA.macros) != list(eA.macros):
@@ -747,6 +775,7 @@ def check_c09_structure(viol, plan, texts, G, clock, budget, probe):
 
     def job2():
         c2 = parse_jaqal_string(tA, inject_pulses=G2, autoload_pulses=False)
+        before["hdr2"] = extract.header_view(c2, macros=False)
         return c2, expand_subcircuits(c2)
 
     o2 = seams.outcome_of(job2, clock, budget)
@@ -758,6 +787,8 @@ def check_c09_structure(viol, plan, texts, G, clock, budget, probe):
                 if type(gd) is not _GD or gd.parameters or any(gd is x for x in G.values()):
                     viol.add("C09", "bounding_gate_fresh_definition", "mismatch", g.name, "type %s" % type(gd).__name__)
                     break
+        if extract.header_view(e2, macros=False) != before["hdr2"] or extract.header_view(c2, macros=False) != before["hdr2"]:
+            viol.add("C09", "header_unchanged", "mismatch", "expand_subcircuits", "gate table without bounding gates: header data changed")
         probe("c09_no_native_bounding_gates")
     elif o2["kind"] not in ("JaqalError",):
         viol.add("C09", "expand_subcircuits_runs", o2["kind"], o2.get("where", ""), "gate table without bounding gates: %s" % o2.get("exc"))
